@@ -30,7 +30,20 @@ def c_int(x):
     return int(x)
 
 
+_DOC = re.compile(r'^([ \t]*)(?:[ru]?)("""|\'\'\')(?:.|\n)*?\2[ \t]*$', re.M)
+
+
+def strip_docstrings(text):
+    """statement-level triple-quoted strings -> blank lines (an unbalanced
+    bracket inside a docstring must not confuse the line joiner)"""
+    return _DOC.sub(lambda m: "\n" * m.group(0).count("\n"), text)
+
+
+_RAISE2 = re.compile(r"^(\s*)raise\s+([A-Za-z_][\w\.]*)\s*,\s*(.+)$")
+
+
 def join_lines(text):
+    text = strip_docstrings(text)
     out, buf, depth = [], "", 0
     for raw in text.split("\n"):
         line = raw.rstrip()
@@ -118,14 +131,102 @@ def scalar_refs(line):
     return "%s%s\n%s%s\n%s%s" % (ind, pre, ind, body, ind, post)
 
 
-def lower_source(src):
+def _tc(v, cls):
+    """Cython's check when an object is bound to a variable or argument
+    declared with an extension/builtin type (None is accepted)"""
+    if v is None or isinstance(v, cls):
+        return v
+    raise TypeError("Cannot convert %s to %s" % (type(v).__name__,
+                                                 getattr(cls, "__name__", cls)))
+
+
+def typed_bindings(src, classes):
+    """keep the run-time type checks of `cdef Cls x`, `cdef Cls x = e` and
+    `Cls arg` in signatures for the class names given"""
+    alt = "|".join(sorted(classes, key=len, reverse=True))
+    decl_re = re.compile(r"^(\s*)cdef\s+(%s)\s+(.+)$" % alt)
+    asg_re = re.compile(r"^(\s*)([A-Za-z_]\w*)\s*=(?!=)\s*(.+)$")
+    hdr_re = re.compile(r"^(\s*)(?:cp?def|def)\s.*\((.*)\)[^()]*:\s*$")
+    decl, out, pending = {}, [], None
+    for line in src.split("\n"):
+        if pending is not None and line.strip():
+            ind = line[:len(line) - len(line.lstrip())]
+            for nm, cls in pending:
+                out.append("%s%s = _tc(%s, %s)" % (ind, nm, nm, cls))
+            pending = None
+        m = hdr_re.match(line)
+        if m and not decl and pending is None and not out_has_def(out):
+            args, depth, cur = [], 0, ""
+            for ch in m.group(2):
+                if ch in "([{":
+                    depth += 1
+                elif ch in ")]}":
+                    depth -= 1
+                if ch == "," and depth == 0:
+                    args.append(cur)
+                    cur = ""
+                else:
+                    cur += ch
+            args.append(cur)
+            pend = []
+            for a in args:
+                a = a.split("=")[0].strip()
+                mm = re.match(r"^(%s)\s+([A-Za-z_]\w*)$" % alt, a)
+                if mm:
+                    pend.append((mm.group(2), mm.group(1)))
+            pending = pend
+            out.append(line)
+            continue
+        m = decl_re.match(line)
+        if m:
+            ind, cls, rest = m.groups()
+            parts, depth, cur = [], 0, ""
+            for ch in rest:
+                if ch in "([{":
+                    depth += 1
+                elif ch in ")]}":
+                    depth -= 1
+                if ch == "," and depth == 0:
+                    parts.append(cur)
+                    cur = ""
+                else:
+                    cur += ch
+            parts.append(cur)
+            for part in parts:
+                if "=" in part:
+                    nm, expr = part.split("=", 1)
+                    decl[nm.strip()] = cls
+                    out.append("%s%s = _tc(%s, %s)" % (ind, nm.strip(),
+                                                       expr.strip(), cls))
+                else:
+                    decl[part.strip()] = cls
+            continue
+        m = asg_re.match(line)
+        if m and m.group(2) in decl:
+            out.append("%s%s = _tc(%s, %s)" % (m.group(1), m.group(2),
+                                               m.group(3), decl[m.group(2)]))
+            continue
+        out.append(line)
+    return "\n".join(out)
+
+
+def out_has_def(out):
+    return any(re.match(r"^\s*(?:cp?def|def)\s", l) for l in out)
+
+
+def lower_source(src, typed=None):
     src = join_lines(src)
+    if typed:
+        src = typed_bindings(src, typed)
     lines = []
     for line in src.split("\n"):
         s = line.strip()
         if s.startswith("@cython.") or s.startswith("@cython"):
             continue
         line = numeric_casts(line)
+        m = _RAISE2.match(line)
+        if m:                       # py2 form:  raise E, msg
+            line = "%sraise %s(%s)" % m.groups()
         lines.append(line)
     low = gen2py.lower("\n".join(lines))
     out = []
@@ -220,25 +321,29 @@ class Module(object):
     def __init__(self, extra=None):
         self.ns = gen2py.base_namespace(extra)
         self.ns["c_int"] = c_int
+        self.ns["_tc"] = _tc
         self.sources = {}
         self.items = {}
 
     def add_file(self, path):
         self.items.update(split_module(path))
 
-    def load(self, name, as_name=None):
+    typed = None
+
+    def load(self, name, as_name=None, register=True):
         """lower and define function/method `name` in the namespace"""
         src = self.items[name]
-        py = lower_source(src)
+        py = lower_source(src, self.typed)
         self.sources[name] = py
         loc = {}
         exec(compile(py, "<lowered %s>" % name, "exec"), self.ns, loc)
         fn = [v for v in loc.values() if callable(v)][-1]
-        self.ns[as_name or name.split(".")[-1]] = fn
+        if register:
+            self.ns[as_name or name.split(".")[-1]] = fn
         return fn
 
-    def make_class(self, clsname, methods, bases=()):
+    def make_class(self, clsname, methods, bases=(), register=True):
         d = {}
         for m in methods:
-            d[m.split(".")[-1]] = self.load(m)
+            d[m.split(".")[-1]] = self.load(m, register=register)
         return type(clsname, tuple(bases) or (object,), d)
